@@ -12,6 +12,12 @@ type modField struct {
 	prefix string // "H!Owner.field"
 	obj    *Term
 	src    string
+	// each-form: obj ranges over the payload pointers of the elements of a slice of interfaces
+	each     bool
+	eachVal  *Term // component (Array Int (Array Int Int)) of payloads at evaluation time
+	eachArr  *Term
+	eachOff  *Term
+	eachLen  *Term
 }
 
 type modElems struct {
@@ -54,7 +60,7 @@ func (x *Exec) modAddField(ms *ModSet, T types.Type, fi FieldInfo, obj *Term, sr
 		return
 	}
 	prefix := "H!" + ownerName(T) + "." + fi.Name
-	ms.Fields = append(ms.Fields, modField{prefix, obj, src})
+	ms.Fields = append(ms.Fields, modField{prefix: prefix, obj: obj, src: src})
 	for _, l := range x.Sh.Leaves(fi.Type) {
 		ms.keys[compKeyField(ownerName(T), fi.Name, l.Suffix)] = ArrSort(SInt, l.Sort)
 	}
@@ -97,6 +103,35 @@ func (x *Exec) evalModSet(sp *FuncSpec, env *SpecEnv) *ModSet {
 				panic(fmt.Errorf("modifies %s: no field %s", ml.Src, sel.Name))
 			}
 			x.modAddField(ms, T2, fi, addr2, ml.Src)
+		case "eachfield":
+			base := env.eval(ml.E)
+			sl, ok := base.V.(VSlice)
+			if !ok {
+				panic(fmt.Errorf("modifies %s: not a slice", ml.Src))
+			}
+			elem := typeUnder(base.T).(*types.Slice).Elem()
+			T := env.resolveType(ml.CastType)
+			pt, ok := typeUnder(T).(*types.Pointer)
+			if !ok || structOf(pt.Elem()) == nil {
+				panic(fmt.Errorf("modifies %s: cast type must be a struct pointer", ml.Src))
+			}
+			fi, ok := x.fieldByName(pt.Elem(), ml.Field)
+			if !ok {
+				panic(fmt.Errorf("modifies %s: no field %s", ml.Src, ml.Field))
+			}
+			var valLeaf Leaf
+			for _, l := range x.Sh.Leaves(elem) {
+				if l.Role == "val" {
+					valLeaf = l
+				}
+			}
+			_, comp := x.elemsComp(env.Cur, elem, valLeaf)
+			n0 := len(ms.Fields)
+			x.modAddField(ms, pt.Elem(), fi, x.C.Int(0), ml.Src)
+			for k := n0; k < len(ms.Fields); k++ {
+				ms.Fields[k].each = true
+				ms.Fields[k].eachVal, ms.Fields[k].eachArr, ms.Fields[k].eachOff, ms.Fields[k].eachLen = comp, sl.Arr, sl.Off, sl.Len
+			}
 		case "allfields":
 			base := env.eval(ml.E)
 			T, addr := x.structPtrOf(base)
@@ -183,6 +218,12 @@ func (x *Exec) inModObj(ms *ModSet, key string, p *Term) *Term {
 	var alts []*Term
 	for _, f := range ms.Fields {
 		if keyMatches(key, f.prefix) {
+			if f.each {
+				i := c.NewBound("e", SInt)
+				alts = append(alts, c.Exists([]*Term{i}, c.And(c.InRange(i, c.Int(0), f.eachLen),
+					c.Eq(p, c.Select(c.Select(f.eachVal, f.eachArr), x.slot(f.eachOff, i))))))
+				continue
+			}
 			alts = append(alts, c.Eq(p, f.obj))
 		}
 	}
@@ -335,7 +376,33 @@ func (x *Exec) havocFootprint(st *State, pre *State, ms *ModSet) {
 		for k, s := range ms.keys {
 			x.compSorts[k] = s
 			x.heapGet(st, k, s)
-			x.heapSet(st, k, c.Fresh("Hc!"+k, s))
+			st.Heap[k] = c.Fresh("Hc!"+k, s)
+			noted := false
+			for _, f := range ms.Fields {
+				if keyMatches(k, f.prefix) {
+					if f.each {
+						x.noteWriteAt(k, nil)
+					} else {
+						x.noteWriteAt(k, f.obj)
+					}
+					noted = true
+				}
+			}
+			for _, e := range ms.Elems {
+				if keyMatches(k, e.prefix) {
+					x.noteWriteAt(k, e.arr)
+					noted = true
+				}
+			}
+			for _, m := range ms.Maps {
+				if keyMatches(k, m.prefix) {
+					x.noteWriteAt(k, m.id)
+					noted = true
+				}
+			}
+			if !noted {
+				x.noteWriteAt(k, nil)
+			}
 		}
 		for ck := range ms.Cells {
 			x.noteWrite("cell:" + ck)
@@ -451,6 +518,14 @@ func (x *Exec) calleeFrameCheck(st *State, ms *ModSet, site string) {
 		return
 	}
 	for _, f := range ms.Fields {
+		if f.each {
+			q := c.NewBound("e", SInt)
+			obj := c.Select(c.Select(f.eachVal, f.eachArr), x.slot(f.eachOff, q))
+			cond := c.Forall([]*Term{q}, c.Implies(c.InRange(q, c.Int(0), f.eachLen),
+				c.Or(c.Gt(obj, x.entryAlloc()), x.inModObj(x.mods, f.prefix, obj))))
+			x.oblige(st, "frame", "callee:"+f.src, site, "callee footprint within the unit's modifies clause", cond)
+			continue
+		}
 		if x.isFreshTerm(f.obj) {
 			continue
 		}
